@@ -85,6 +85,26 @@ def calls_corpus(i: int, which: int) -> str:
     return 'ok'
 
 
+class UserBase(object):
+    def __init__(self, v=None):
+        self.v = v
+
+
+class UserSub(UserBase):
+    pass
+
+
+class UserDict(dict):
+    pass
+
+
+class MultiDumper(yaml.SafeDumper):
+    """a dumper subclass with one multi-representer of its own (registered once, at import: part of the baseline)"""
+
+
+MultiDumper.add_multi_representer(UserBase, lambda dumper, data: dumper.represent_scalar('!base', str(data.v)))
+
+
 def calls(s: str, which: int) -> str:
     """no API call changes library-global state, whatever the input (error paths included)"""
     with untraced():
@@ -107,9 +127,19 @@ def calls(s: str, which: int) -> str:
             out = Sink()
             yaml.emit([StreamStartEvent(), DocumentStartEvent(tags={'!e!': 'tag:e,2000:'}), ScalarEvent(None, 'tag:e,2000:x', (False, False), s),
                        DocumentEndEvent(), StreamEndEvent()], out)
-        else:
+        elif which == 7:
             out = Sink()
             yaml.dump(s, out, Dumper=yaml.Dumper)
+        elif which == 8:
+            # user objects through the shipped Dumper (dispatch through the multi-representer of `object`)
+            out = Sink()
+            yaml.dump([UserSub(s), UserDict(k=s), UserBase], out, Dumper=yaml.Dumper)
+        elif which == 9:
+            out = Sink()
+            yaml.dump({'o': UserSub(s), 'p': UserBase(1)}, out, Dumper=MultiDumper)
+        else:
+            # objects built by the trusted loader (python/object tags: dispatch through multi-constructors)
+            yaml.load('- !!python/object:harness.c11.UserSub {v: 1}\n- !!python/object/apply:harness.c11.UserBase [2]\n- ' + s, Loader=yaml.UnsafeLoader)
     except yaml.YAMLError:
         reach()
     except Exception as e:
@@ -349,11 +379,11 @@ def jobs(tier):
     q = tier == 'quick'
     L = 1 if q else 2
     js = []
-    for w in range(8):
+    for w in range(11):
         js.append(Job('calls/%d' % w, calls, [lambda s, which, _w=w: which == _w and len(s) <= (L if _w in (0, 1, 2, 3) else 1)],
                       budget=200 if q else 1500, bounds='API call %d on every str of len<=%d, global snapshot before/after' % (w, L if w < 4 else 1)))
-    js.append(Job('calls-corpus', calls_corpus, [lambda i, which: 0 <= i < 2 * len(CORPUS) and 0 <= which <= 7], budget=200,
-                  bounds='8 API calls on %d corpus documents and %d two-document streams, global snapshot before/after' % (len(CORPUS), len(CORPUS))))
+    js.append(Job('calls-corpus', calls_corpus, [lambda i, which: 0 <= i < 2 * len(CORPUS) and 0 <= which <= 10], budget=200,
+                  bounds='11 API calls on %d corpus documents and %d two-document streams, global snapshot before/after' % (len(CORPUS), len(CORPUS))))
     for pre in range(3):
         js.append(Job('parser-reset/pre%d' % pre, parser_reset,
                       [lambda pre, ver, nd, d0, d1, explicit, _p=pre: pre == _p and 0 <= nd <= 2 and 0 <= d0 <= 4 and 0 <= d1 <= 4],
